@@ -72,7 +72,7 @@ def _replay(real, engine, rec, c15):
                 at = real.project_tuple([t1, t2] + vs)
                 if json.dumps(at, sort_keys=True) != json.dumps(rec["at"], sort_keys=True):
                     return {"kind": "at-yield", "detail": "terms at the yield differ from the most general unifier", "expected": rec["at"], "observed": at, "variant": variant}
-                if c15:
+                if True:
                     gv = [engine.get_value(v) for v in vs]
                     raw = real.project_raw_tuple(gv)
                     for i in range(3):
@@ -100,6 +100,44 @@ def _replay(real, engine, rec, c15):
                         now = real.project_raw(saved[0][i], {})
                         if json.dumps(now, sort_keys=True) != json.dumps(exp, sort_keys=True):
                             return {"kind": "stale", "detail": "a value saved at the yield changed after %s" % variant, "expected": exp, "observed": now}
+        # follow-up: after the unification has been undone (three times), every variable must again be
+        # exactly what the stack alone makes it: unify it with a new atom and look at all three
+        pv = rec["pv"]
+        for i in range(3):
+            zz = yp.atom("zz%d" % i)
+            g = iter(engine.unify(vs[i], zz))
+            try:
+                next(g)
+                y = True
+            except StopIteration:
+                y = False
+            want = pv[i]["t"] == "v"
+            if y != want:
+                return {"kind": "follow-up", "detail": "after undoing the unification, variable %d %s the new atom although the stack alone leaves it %s" %
+                        (i, "unifies with" if y else "does not unify with", "free" if want else "bound"), "expected": pv[i]}
+            if y:
+                now = real.project_tuple(vs)
+                exp = [({"t": "a", "n": "zz%d" % i} if (p["t"] == "v" and p["id"] == pv[i]["id"]) else p) for p in pv]
+                # renumber the remaining variables canonically
+                seen = {}
+                def ren(t):
+                    if t["t"] == "v":
+                        return {"t": "v", "id": seen.setdefault(t["id"], len(seen))}
+                    if t["t"] == "c":
+                        return {"t": "c", "n": t["n"], "a": [ren(a) for a in t["a"]]}
+                    return t
+                def subst(t):
+                    if t["t"] == "v" and t["id"] == pv[i]["id"]:
+                        return {"t": "a", "n": "zz%d" % i}
+                    if t["t"] == "c":
+                        return {"t": "c", "n": t["n"], "a": [subst(a) for a in t["a"]]}
+                    return t
+                exp = [ren(subst(p)) for p in pv]
+                if json.dumps(now, sort_keys=True) != json.dumps(exp, sort_keys=True):
+                    return {"kind": "follow-up", "detail": "after undoing the unification, binding variable %d shows other values than the stack alone implies" % i,
+                            "expected": exp, "observed": now}
+                engine.get_value(vs[0]); engine.get_value(vs[1]); engine.get_value(vs[2])
+                g.close()
     finally:
         for g in reversed(held):
             g.close()
